@@ -63,7 +63,10 @@ def handle (s : S) (i : Nat) (j : Json) : S × List Json :=
     if !s.started then (s, [verdictBad i "hist.step before hist.begin"]) else
     let st := parseStep j
     if st.failed then (s, [verdictOk i]) else
-    let addrs := (s.addrs ++ (addrMap st.obs).filter (fun a => !s.addrs.any (fun b => b.1 == a.1)))
+    -- a position address is derived from the id alone; after an export / import restart the id of a position closed long ago may be
+    -- handed out again (to a position of another pool): what the address means now is what this block's observation says
+    let cur := addrMap st.obs
+    let addrs := cur ++ s.addrs.filter (fun a => !cur.any (fun b => b.1 == a.1))
     let moves := st.beginMoves ++ st.txs.flatMap (·.moves) ++ st.endMoves
     let sc := moves.foldl (scanMove s.cmAddr addrs) { m := s.model }
     let m1 := sc.m
